@@ -106,6 +106,21 @@ def deny_class(path):
     return None
 
 
+_SIZE_ARG = re.compile(r"^(std|core)::slice::<impl \[T\]>::(chunks|chunks_exact|windows|rchunks|chunks_mut|chunks_exact_mut)$")
+
+
+def deny_exempt(f, term):
+    """A deny-listed callee whose only precondition is `size != 0` (`windows(n)`, `chunks(n)`) is harmless when the size
+    operand is a non-zero literal."""
+    if not _SIZE_ARG.search(f["path"]) and not _SIZE_ARG.search(str(f.get("resolved") or "")):
+        return False
+    try:
+        k = term["args"][1].get("k")
+        return bool(k) and "int" in k and int(k["int"]) != 0
+    except Exception:
+        return False
+
+
 def is_panic_call(path):
     return bool(re.search(r"^(std|core)::panicking::|^std::rt::(begin_panic|panic_fmt)", path))
 
